@@ -61,6 +61,10 @@ inductive Op (R : Type) where
   | flush
   | close
   | exit
+  /-- a `write` the adapter REFUSES (the value cannot be stored: an integer outside 64 bits for SQLite, text with a
+      lone surrogate for the stream packer): it raises and stores nothing; what it may have done before the refusal -
+      emitted the header, committed the adapter's buffer because the record type was new (`commits`) - stays -/
+  | bad (commits : Bool)
   deriving DecidableEq, Repr
 
 inductive Outcome where
@@ -100,11 +104,18 @@ def doExit {R : Type} (F : Flags) (s : Life R) : Life R × Outcome :=
     | r => r
   else doClose F s
 
+def doBad {R : Type} (F : Flags) (s : Life R) (commits : Bool) : Life R × Outcome :=
+  if !s.isOpen then (s, .raised)
+  else
+    let s1 := if commits then s.drain else s
+    ({ s1 with headerOnDisk := s.headerOnDisk || F.writeEmitsHeader }, .raised)
+
 def step {R : Type} (F : Flags) (s : Life R) : Op R → Life R × Outcome
   | .write r => doWrite F s r
   | .flush => doFlush F s
   | .close => doClose F s
   | .exit => doExit F s
+  | .bad c => doBad F s c
 
 def run {R : Type} (F : Flags) (s : Life R) (ops : List (Op R)) : Life R := ops.foldl (fun s op => (step F s op).1) s
 
@@ -130,6 +141,7 @@ def flushBeforeFirstWrite {R : Type} : List (Op R) → Bool
   | .flush :: _ => true
   | .exit :: _ => false     -- exit closes: nothing can be written afterwards
   | .close :: _ => false
+  | .bad _ :: ops => flushBeforeFirstWrite ops
 
 def isClosing {R : Type} : Op R → Bool
   | .close => true
@@ -256,6 +268,11 @@ def splitStep {R : Type} (F : Flags) (s : Split R) : Op R → Split R × Outcome
     match s.cur with
     | none => (s, .ok)
     | some (i, w) => ({ s with done := s.done ++ [(i, (doClose F (doFlush F w).1).1)], cur := none }, .ok)
+  | .bad c =>
+    -- the part writer refuses the record: `written` is not advanced, no rotation
+    match s.cur with
+    | none => (s, .raised)
+    | some (i, w) => ({ s with cur := some (i, (doBad F w c).1) }, .raised)
 
 def splitRun {R : Type} (F : Flags) (s : Split R) (ops : List (Op R)) : Split R :=
   ops.foldl (fun s op => (splitStep F s op).1) s
